@@ -19,14 +19,14 @@ TEXT = {
     'C09': ('exploration', 'E1 tcpcl_pair', 'seeded search over termination/close/fault points; history oracle + bounded liveness',
             'terminate/shutdown/close and peer death (FIN, RST, black-hole) are placed on history triggers inside transfers; oracle checks '
             'completion of in-progress transfers, SESS_TERM count and REPLY flag, reporting of unstarted transfers, and that both contacts '
-            'close within the horizon. A fifth of the runs open two contacts between the same agents and shut the agent down (or terminate one contact, then possibly shut the agent down while that contact is still ending, or before a contact is established) while the other is busy.', '5/C09'),
+            'close within the horizon; a share of the runs faces a conforming scripted peer that waits for the agent to close, with short writes on the agent\'s last messages. A fifth of the runs open two contacts between the same agents and shut the agent down (or terminate one contact, then possibly shut the agent down while that contact is still ending, or before a contact is established) while the other is busy.', '5/C09'),
     'C14': ('exploration', 'E1 tcpcl_pair', 'seeded search on virtual time; negotiated values vs reference decode; timer deadlines on the wire',
             'Keepalive/idle/MRU pairs and traffic times are drawn; the simulator owns the clock so 65535 s timers cost nothing; KEEPALIVE spacing, '
-            'idle-timeout SESS_TERM and closing of a silent terminating endpoint are judged on the wire tap against virtual time.', '5/C14'),
+            'idle-timeout SESS_TERM and closing of a silent terminating endpoint are judged on the wire tap against virtual time; a share of the stall runs has bounded socket buffers, so that a writer meets EAGAIN across keepalive deadlines and the cadence must be back once the stall is over.', '5/C14'),
     'C18': ('exploration', 'E1 tcpcl_pair + E2 scripted peer + E6 udpcl_pair + E5f full stack', 'seeded interleaving of D-Bus calls with protocol progress; marshalling model + sequential queue/idle model',
             'Every signal emission and method return is marshalled against its declared signature by a model of dbus-python checked against the real '
             'binding; queue, pop, idle and connection-list answers are compared with a sequential model at every call; a scripted peer adds refusals and back-pressure, '
-            'file-based transfers and IPv6 hosts are included; the full-stack engines put real bp agents with the real bp.cla UDPCL / TCPCL adaptors in front of real CL agents (sessions opened on demand, pop on the finished signal, a session ended by a user in between).', '5/C18'),
+            'file-based transfers and IPv6 hosts are included; the full-stack engines put real bp agents with the real bp.cla UDPCL / TCPCL adaptors in front of real CL agents (sessions opened on demand, pop on the finished signal, a session ended by a user in between); a storage fault makes recv_bundle_pop_file fail (the transfer has to stay queued), and a foreign UDPCL peer announces Sender Listen intervals over the whole unsigned range.', '5/C18'),
     'C07': ('exploration', 'E2 tcpcl_stream', 'seeded + windowed-exhaustive search over cut patterns of the TCP stream; reference decode of every delivered prefix',
             'One real agent reads a legal peer stream produced by the independent encoder; the variable is where the stream is cut into socket reads '
             '(single cuts, dribble, message boundaries +-1, random, all patterns over a 10-octet window). After each read the handled messages must '
@@ -52,7 +52,7 @@ TEXT = {
             'For each generated bundle every bit of a window (whole bundle when small) is flipped and the sequence corrupt copy / clean copy / duplicate is received by one agent; '
             '(a tenth of the runs with a payload block above 64 KiB); a flip inside a CRC-protected block must leave no trace and the clean copy must then be processed exactly once; every transmitted bundle is re-decoded and its CRCs recomputed bitwise.', '5/C08'),
     'C10': ('exploration', 'E5 bp_net', 'seeded search over routing tables x receive histories with repeats and look-alikes; seen-set + first-match model',
-            'A reference model (identity seen-set, own-source filter, administrative endpoint, first matching route) predicts for every reception the exact probe deliveries and forwards.', '5/C10'),
+            'A reference model (identity seen-set, own-source filter, administrative endpoint, first matching route) predicts for every reception the exact probe deliveries and forwards; copies damaged in transit (CRC mismatch) cause nothing and do not turn the intact copy that follows into a repeat.', '5/C10'),
     'C11': ('exploration', 'E5 bp_net (relay role, clock skew)', 'seeded search over block mixes, numbering, CRC types and relay clock; received vs transmitted bytes through the reference decoder',
             'Sequences of 1-3 bundles are relayed by one node (state carried between bundles shows); the transmitted bytes are decoded independently and compared with the received encoding '
             'field by field; the age is judged against the simulated relay clock.', '5/C11'),
@@ -63,7 +63,7 @@ TEXT = {
             'Two real UDPCL agents and a foreign reference peer exchange bundles over a simulated UDP network whose faults the chooser decides; pacing runs on the virtual clock; wire and receive queues are judged independently.', '5/C13'),
     'C16': ('fault_enumeration', 'E5 bp_net (source + MITM link + destination)', 'as C03 for confidentiality blocks: enumeration of bit flips / field rewrites, independent AES-GCM + AAD',
             'The real source encrypts through its transmit chain (one or two targets, one or two associations; also foreign bundles with two confidentiality blocks, and status reports that the policy node itself originates); the wire must hold ciphertext that the independent construction decrypts; every altered copy of ciphertext, tag, IV or '
-            'authenticated context, or a wrong key, must neither be delivered nor release plaintext.', '5/C16'),
+            'authenticated context, or a wrong key, must neither be delivered nor release plaintext. Content-encryption modes: direct key (COSE_Encrypt0) and wrapped key (COSE_Encrypt with an AES-KW recipient, reference unwrap); the IV configuration of the source is varied (list, empty = random, exhausted): every bundle of the source must leave encrypted and no IV may repeat.', '5/C16'),
     'C19': ('exploration', 'E5 bp_net', 'seeded search over report flags x report-to x outcomes; reference status-report decoder',
             'All flag combinations and outcomes (deliver, forward, forward with fragmentation, forward that cannot fit or that the convergence layer refuses, delete, no route, security failure, duplicate) are run; every administrative bundle leaving the node is decoded independently and matched to its subject.', '5/C19'),
     'C20': ('exploration', 'E7 dgram_pair (btpu)', 'seeded search over lengths x MTUs with frame reorder / duplicate / delay (beyond the receive timeout) / drop; reference codec + repo codec round trip',
